@@ -197,8 +197,32 @@ func (e *Engine) summarise(fn *ssa.Function) (bad bool, writes map[int]bool) {
 					continue
 				}
 				if con := e.contractFor(callee); con != nil && !con.Swept {
-					if con.ModAll || len(con.Modifies) > 0 {
+					if con.ModAll {
 						return true, nil
+					}
+					// `modifies p...`: the callee writes what its parameter p designates
+					for _, item := range con.Modifies {
+						root := strings.TrimPrefix(item, "*")
+						if i := strings.IndexAny(root, ".["); i >= 0 {
+							root = root[:i]
+						}
+						found := false
+						for pi, p := range callee.Params {
+							if p.Name() == root && pi < len(cc.Args) {
+								found = true
+								a := cc.Args[pi]
+								var r ssa.Value = a
+								if _, isPtr := a.Type().Underlying().(*types.Pointer); isPtr {
+									r = storeRoot(a)
+								}
+								if !note(r) {
+									return true, nil
+								}
+							}
+						}
+						if !found {
+							return true, nil
+						}
 					}
 					continue
 				}
